@@ -186,17 +186,53 @@ theorem fillLocals_local (st : Array V) (bp : Int) (np nl i : Nat) (hbp : 0 ≤ 
   simp only [hy, and_self, if_true] at h
   simp [getElem!_def, h]
 
+/-- `fillUndefined` (the loop `for i := numParams; i < numLocals; i++ { vm.stack[basePointer+i] = Undefined }`) -/
+theorem exec_fillUndefined (lo : Int) (n : Nat) (s : State) (hb : ∀ k, k < n → 0 ≤ lo + (k : Int) ∧ lo + (k : Int) < (stackSize : Int)) :
+    exec (fillUndefined lo n) s =
+      (.ok (), { s with stack := (List.range' 0 n).foldl (fun st (k : Nat) => st.set! (lo + (k : Int)).toNat .undefined) s.stack }) := by
+  unfold fillUndefined
+  simp only [exec_bind]
+  rw [exec_range_stackSet .undefined n s (fun k => lo + (k : Int)) hb]
+  rfl
+
+/-- the part of xOpCallCompiled after the argument binding, when binding succeeded in state `t`
+    and the call is not a self tail call: locals initialised, new frame entered -/
+theorem exec_callCompiled_of_bind (fa : Addr) (numArgs flags : Int) (s t : State) (code : Code) (free : Option (List Addr))
+    (hcell : exec (fnCell fa) s = (.ok (code, free), s))
+    (hbind : exec (bindArgs code (s.sp - numArgs) numArgs flags) s = (.ok (.ok ()), t))
+    (hself : (t.frames[t.curFrame]!).fn ≠ some fa)
+    (hfi : 0 ≤ t.frameIndex ∧ t.frameIndex + 1 ≤ (frameSize : Int) - 1)
+    (hbp : 0 ≤ s.sp - numArgs) (hroom : s.sp - numArgs + code.numLocals ≤ (stackSize : Int))
+    (hnl : code.numParams ≤ code.numLocals) :
+    exec (callCompiled fa numArgs flags) s = (.ok (.ok ()),
+      { t with stack := fillLocals t.stack (s.sp - numArgs) code.numParams code.numLocals,
+               frameIndex := t.frameIndex + 1,
+               frames := (t.frames.modify t.curFrame fun f => { f with ip := t.ip + 2 }).modify t.frameIndex.toNat fun f =>
+                  { f with fn := some fa, free := free, handlers := none, bp := s.sp - numArgs, discard := false },
+               curFrame := t.frameIndex.toNat, sp := s.sp - numArgs + code.numLocals, ip := -1 }) := by
+  unfold callCompiled
+  simp only [exec_bind, hcell, exec_getSp, hbind, exec_pure]
+  have hloop := exec_fillUndefined (s.sp - numArgs + (code.numParams : Int)) ((code.numLocals : Int) - code.numParams).toNat t
+      (by intro k hk; constructor <;> omega)
+  rw [hloop]
+  have hne : ((t.frames[t.curFrame]!).fn == some fa) = false := by simpa using hself
+  simp only [exec_curFrame, exec_getIp, hne, Bool.false_eq_true, ↓reduceIte, exec_getS]
+  have h1 : ¬ (t.frameIndex < 0) := by omega
+  have h1' : ¬ (t.frameIndex ≥ (frameSize : Int)) := by omega
+  have h2 : ¬ (t.frameIndex + 1 > (frameSize : Int) - 1) := by omega
+  simp [exec_bind, exec_getS, exec_modS, exec_setSp, exec_setIp, exec_pure, exec_setCurFrame, enterFrame, h1, h1', h2, fillLocals]
+  rfl
+
 /-- fixed arity, wrong number of arguments: WrongNumberOfArgumentsError, nothing else happens -/
 theorem callCompiled_fixed_arity_error (fa : Addr) (numArgs : Int) (s : State) (code : Code) (free : Option (List Addr))
     (hcell : exec (fnCell fa) s = (.ok (code, free), s))
     (hnv : code.variadic = false) (hargs : numArgs ≠ code.numParams) :
     exec (callCompiled fa numArgs 0) s =
       (.ok (.error (.named "WrongNumberOfArgumentsError" (wantEq code.numParams numArgs))), s) := by
-  unfold callCompiled
+  unfold callCompiled bindArgs
   simp only [exec_bind, hcell, exec_getSp]
   simp [hnv, hargs, exec_pure]
 
-set_option maxHeartbeats 1000000 in
 /-- fixed arity, right number of arguments, not a self tail call: a new frame is entered whose base
     pointer is the first argument — the arguments ARE the parameters, in order, untouched — the
     remaining locals are undefined, and the caller's frame remembers where to continue. -/
@@ -213,22 +249,10 @@ theorem callCompiled_fixed (fa : Addr) (numArgs : Int) (s : State) (code : Code)
                frames := (s.frames.modify s.curFrame fun f => { f with ip := s.ip + 2 }).modify s.frameIndex.toNat fun f =>
                   { f with fn := some fa, free := free, handlers := none, bp := s.sp - numArgs, discard := false },
                curFrame := s.frameIndex.toNat, sp := s.sp - numArgs + code.numLocals, ip := -1 }) := by
-  unfold callCompiled
-  simp only [exec_bind, hcell, exec_getSp]
-  simp only [hnv, hargs, bne_self_eq_false, Bool.false_eq_true, ↓reduceIte, Bool.not_false, beq_self_eq_true, exec_pure]
-  subst hargs
-  have hloop := exec_range_stackSet .undefined ((code.numLocals : Int) - code.numParams).toNat s
-      (fun k => s.sp - (code.numParams : Int) + code.numParams + k) (by intro k hk; constructor <;> omega)
-  simp only [exec_bind]
-  rw [hloop]
-  have hne : ((s.frames[s.curFrame]!).fn == some fa) = false := by
-    simpa using hself
-  simp only [exec_curFrame, exec_getIp, hne, Bool.false_eq_true, ↓reduceIte, exec_getS]
-  have h1 : ¬ (s.frameIndex < 0) := by omega
-  have h1' : ¬ (s.frameIndex ≥ (frameSize : Int)) := by omega
-  have h2 : ¬ (s.frameIndex + 1 > (frameSize : Int) - 1) := by omega
-  simp [exec_bind, exec_getS, exec_modS, exec_setSp, exec_setIp, exec_pure, h1, h1', h2, fillLocals]
-  rfl
+  have hbind : exec (bindArgs code (s.sp - numArgs) numArgs 0) s = (.ok (.ok ()), s) := by
+    unfold bindArgs
+    simp [hnv, hargs, exec_pure]
+  exact exec_callCompiled_of_bind fa numArgs 0 s s code free hcell hbind hself hfi hbp hroom hnl
 
 /-- variadic callee, too few arguments: WrongNumberOfArgumentsError -/
 theorem callCompiled_variadic_arity_error (fa : Addr) (numArgs : Int) (s : State) (code : Code) (free : Option (List Addr))
@@ -236,7 +260,7 @@ theorem callCompiled_variadic_arity_error (fa : Addr) (numArgs : Int) (s : State
     (hv : code.variadic = true) (hargs : numArgs < (code.numParams : Int) - 1) :
     exec (callCompiled fa numArgs 0) s =
       (.ok (.error (.named "WrongNumberOfArgumentsError" (wantGE ((code.numParams : Int) - 1) numArgs))), s) := by
-  unfold callCompiled
+  unfold callCompiled bindArgs
   simp only [exec_bind, hcell, exec_getSp]
   simp [hv, hargs, exec_pure]
 
@@ -262,37 +286,32 @@ theorem callCompiled_variadic (fa : Addr) (numArgs : Int) (s : State) (code : Co
                   { f with fn := some fa, free := free, handlers := none, bp := bp, discard := false },
                curFrame := s.frameIndex.toNat, sp := bp + code.numLocals, ip := -1 }) := by
   intro bp rest
-  unfold callCompiled
-  simp only [exec_bind, hcell, exec_getSp]
-  have hlt : ¬ (numArgs < (code.numParams : Int) - 1) := by omega
-  simp only [hv, Bool.not_true, Bool.false_eq_true, ↓reduceIte, bne_iff_ne, ne_eq, hlt, decide_false, exec_pure]
-  have hne : ((s.frames[s.curFrame]!).fn == some fa) = false := by simpa using hself
-  have h1 : ¬ (s.frameIndex < 0) := by omega
-  have h1' : ¬ (s.frameIndex ≥ (frameSize : Int)) := by omega
-  have h2 : ¬ (s.frameIndex + 1 > (frameSize : Int) - 1) := by omega
-  have hl := fun (t : State) => exec_range_stackSet .undefined ((code.numLocals : Int) - code.numParams).toNat t
-      (fun k => s.sp - numArgs + code.numParams + k) (by intro k hk; constructor <;> omega)
-  by_cases heq : numArgs = (code.numParams : Int) - 1
-  · have hset := fun (v : V) (t : State) => exec_stackSet (s.sp - numArgs + numArgs) v t (by constructor <;> omega)
-    have hrest : rest = [] := by
-      show List.take _ _ = []
-      have : (numArgs - ((code.numParams : Int) - 1)).toNat = 0 := by omega
-      rw [this]; simp
-    simp only [heq, beq_self_eq_true, ↓reduceIte, exec_bind, exec_newArray] at hl hset ⊢
-    simp only [hset, hl, exec_curFrame, exec_getIp, hne, Bool.false_eq_true, ↓reduceIte, exec_getS]
-    have e1 : (s.sp - ((code.numParams : Int) - 1) + code.numParams - 1).toNat = s.sp.toNat := by omega
-    simp [exec_bind, exec_getS, exec_modS, exec_setSp, exec_setIp, exec_pure, h1, h1', h2, fillLocals, hrest, bp, heq, e1]
-    rfl
-  · have hslice := fun (t : State) => exec_stackSlice (s.sp - numArgs + code.numParams - 1) (s.sp - numArgs + numArgs) t
-        (by refine ⟨?_, ?_, ?_⟩ <;> omega)
-    have hset := fun (v : V) (t : State) => exec_stackSet (s.sp - numArgs + code.numParams - 1) v t (by constructor <;> omega)
-    have hb : (numArgs == (code.numParams : Int) - 1) = false := by simpa using heq
-    simp only [beq_self_eq_true, hb, Bool.false_eq_true, ↓reduceIte, exec_bind, hslice, exec_newArray]
-    simp only [hset, hl, exec_curFrame, exec_getIp, hne, Bool.false_eq_true, ↓reduceIte, exec_getS]
-    have e2 : s.sp - numArgs + numArgs - (s.sp - numArgs + ↑code.numParams - 1) = numArgs - ((code.numParams : Int) - 1) := by omega
-    have e3 : s.sp - (s.sp - numArgs + ↑code.numParams - 1) = numArgs - ((code.numParams : Int) - 1) := by omega
-    simp [exec_bind, exec_getS, exec_modS, exec_setSp, exec_setIp, exec_pure, h1, h1', h2, fillLocals, bp, rest, e2, e3]
-    rfl
+  have hbind : exec (bindArgs code (s.sp - numArgs) numArgs 0) s = (.ok (.ok ()),
+      { s with heap := s.heap.push (.arr rest.toArray),
+               stack := s.stack.set! (bp + code.numParams - 1).toNat (.arr s.heap.size 0 rest.length) }) := by
+    unfold bindArgs
+    have hlt : ¬ (numArgs < (code.numParams : Int) - 1) := by omega
+    simp only [hv, Bool.not_true, Bool.false_eq_true, ↓reduceIte, bne_iff_ne, ne_eq, hlt, decide_false, exec_pure, exec_bind,
+      beq_self_eq_true]
+    by_cases heq : numArgs = (code.numParams : Int) - 1
+    · have hset := fun (v : V) (t : State) => exec_stackSet s.sp v t (by constructor <;> omega)
+      have hrest : rest = [] := by
+        show List.take _ _ = []
+        have : (numArgs - ((code.numParams : Int) - 1)).toNat = 0 := by omega
+        rw [this]; simp
+      have e1 : (s.sp - ((code.numParams : Int) - 1) + code.numParams - 1).toNat = s.sp.toNat := by omega
+      have e0 : s.sp - ((code.numParams : Int) - 1) + ((code.numParams : Int) - 1) = s.sp := by omega
+      simp only [heq, beq_self_eq_true, ↓reduceIte, exec_bind, exec_newArray, e0]
+      simp only [hset, exec_pure, hrest, bp, heq, e1]
+    · have hslice := fun (t : State) => exec_stackSlice (s.sp - numArgs + code.numParams - 1) (s.sp - numArgs + numArgs) t
+          (by refine ⟨?_, ?_, ?_⟩ <;> omega)
+      have hset := fun (v : V) (t : State) => exec_stackSet (s.sp - numArgs + code.numParams - 1) v t (by constructor <;> omega)
+      have hb : (numArgs == (code.numParams : Int) - 1) = false := by simpa using heq
+      have e2 : s.sp - numArgs + numArgs - (s.sp - numArgs + ↑code.numParams - 1) = numArgs - ((code.numParams : Int) - 1) := by omega
+      simp only [hb, Bool.false_eq_true, ↓reduceIte, exec_bind, hslice, exec_newArray]
+      have e3 : s.sp - (s.sp - numArgs + ↑code.numParams - 1) = numArgs - ((code.numParams : Int) - 1) := by omega
+      simp [hset, exec_pure, bp, rest, e2, e3]
+  exact exec_callCompiled_of_bind fa numArgs 0 s _ code free hcell hbind hself hfi hbp hroom hnl
 
 /-- the arguments of a call as they lie on the operand stack: `stack[sp-numArgs : sp]` -/
 def argsOnStack (s : State) (numArgs : Int) : List V :=
